@@ -1406,9 +1406,202 @@ def _r5_decide(cx, F, fns):
                      loc=body.loc(body.term(p[-1])) if v is False else body.loc(lookups[0][1]), path=Q.render_path(body, list(p)))
 
 
+# ---------------------------------------------------------------------------------------
+# added after the audit C06h2 #1 (fix: the backquote lexer took `\\<newline>` for a line continuation)
+@RS.rule('C06.R6', 'K-SIBLING', 'a backslash quotes the NEXT character of the source text, also when that character is a backslash followed by a '
+         'newline: every lexer routine that has just consumed an unquoted backslash reads the character it escapes with line '
+         'continuation disabled (text units, backquote units)')
+def r6(cx):
+    F = cx.F
+    n = 0
+    READERS = ('consume_char_if', 'consume_char_if_dyn', 'peek_char', 'consume_char', 'skip_if')
+    for fn, h in F.hir.items():
+        if not fn.startswith('yash_syntax::parser::lex::') or '::tests' in fn or fn.startswith('yash_syntax::parser::lex::core::') \
+                or fn.startswith('yash_syntax::parser::lex::escape::'):
+            continue                       # core: the primitive itself; escape: inside $'..' a backslash-newline is no continuation at all
+        for node in H.walk(h['body']):
+            if node.get('k') != 'if':
+                continue
+            cond = [x for x in H.walk(node['c']) if x.get('k') == 'mcall' and x.get('name') == 'skip_if']
+            if not cond:
+                continue
+            clos = [x for x in H.walk(cond[0]) if x.get('k') == 'closure']
+            is_bs = any(y.get('k') == 'binary' and y.get('op') == '==' and any(H.lit_value(z) == '\\' for z in (y.get('a'), y.get('b')) if isinstance(z, dict))
+                        for c in clos for y in H.walk(c))
+            if not is_bs:
+                continue
+            n += 1
+            cx.fn(fn)
+            reads = [x for x in H.walk(node['t']) if x.get('k') == 'mcall' and x.get('name') in READERS]
+            first = reads[0] if reads else None
+            helper_ok = [x for x in H.walk(node['t']) if x.get('k') in ('mcall', 'call') and _reads_raw(F, x)]
+            ok = False
+            if first is not None:
+                ok = any(y.get('k') == 'mcall' and y.get('name') == 'disable_line_continuation' for y in H.walk(first.get('recv') or {}))
+            if helper_ok and (first is None or helper_ok[0].get('line', 0) <= first.get('line', 0)):
+                ok = True
+            cx.site('%s: after a consumed backslash the escaped character is read with line continuation disabled: %s' % (fn.split('::')[-1], ok))
+            if not ok:
+                cx.violation(fn, 'escaped-char-read-with-line-continuation', 'after consuming a backslash the next character is read while line '
+                             'continuation is still recognised: in `\\\\<newline>` the second backslash and the newline vanish as a line continuation '
+                             'instead of the second backslash being quoted by the first - `echo `echo a\\\\<newline><newline>echo b`` prints '
+                             '`aecho b` (dash, bash: `a b`), and the printed command re-parses to a different tree',
+                             loc='%s:%s' % (h['file'], node.get('line') or h['line']))
+    cx.floor(n, 2, 'lexer routines that consume an unquoted backslash (text unit, backquote unit)')
+
+
+def _reads_raw(F, call):
+    """The callee is a lexer helper that reads through disable_line_continuation()."""
+    d = call.get('def') or ''
+    h = F.hir.get(d)
+    if h is None or not d.startswith('yash_syntax::parser::lex::'):
+        return False
+    return any(x.get('k') == 'mcall' and x.get('name') == 'disable_line_continuation' for x in H.walk(h['body']))
+
+
+# ---------------------------------------------------------------------------------------
+# added after the audit C06h2 (fixes 9cfe2aa, a17af0e, edeb143, 8386d53)
+@RS.rule('C06.R7', 'K-SIBLING', 'parsing from a string is total and exact: every FromStr implementation of a syntax-tree type that drives a Parser '
+         'rejects what is left of the string (RedundantToken) instead of silently returning the prefix it could parse - a checker that '
+         're-parses printed text must not see a truncated tree')
+def r7(cx):
+    F = cx.F
+    roots = sorted({b.root for b in F.bodies.values() if b.root.startswith('yash_syntax::parser::from_str::<impl core::str::traits::FromStr for ')
+                    and b.root.endswith('::from_str')})
+    cx.floor(len(roots), 15, 'FromStr implementations in yash_syntax::parser::from_str')
+    n = 0
+    for root in roots:
+        bodies = F.logical(root)
+        uses_parser = any(Q.find_calls(b, [re.compile(r'parser::core::Parser(::<.*>)?::new$')]) for b in bodies)
+        if not uses_parser:
+            continue
+        n += 1
+        cx.fn(root)
+        rejects = any(Q.find_calls(b, [re.compile(r'from_str::reject_redundant_token$')]) for b in bodies) or \
+            any(Q.find_aggregates(b, re.compile(r'SyntaxError$'), 'RedundantToken') for b in bodies)
+        what = root.split(' for ')[1].split('>::')[0].split('::')[-1]
+        cx.site('%s::from_str drives a Parser and rejects a redundant token: %s' % (what, rejects))
+        if not rejects:
+            cx.violation(root, 'trailing-text-ignored', '%s::from_str returns what it could parse and ignores the rest of the string: '
+                         '"echo a ) garbage" parses as `echo a` and "}" as an empty list, where every sibling implementation answers '
+                         'RedundantToken - printed text that starts or continues with a clause delimiter re-parses to a silently truncated tree' % what)
+    cx.floor(n, 8, 'FromStr implementations that drive a Parser')
+
+
+@RS.rule('C06.R8', 'K-PASS', '`$((` that is not an arithmetic expansion is a command substitution starting with a subshell, whatever follows its '
+         'first `)`: after that `)` has been consumed, "unclosed arithmetic expansion" is reported only after the command substitution '
+         'has been tried - also when the input ends there (printed text never ends with a newline)')
+def r8(cx):
+    F = cx.F
+    fn = "yash_syntax::parser::lex::arith::<impl yash_syntax::parser::lex::core::Lexer<'_>>::arithmetic_expansion"
+    body = F.main_body(fn)
+    cx.fn(body.fn)
+    consumes = [(blk, t) for blk, t in Q.find_calls(body, [re.compile(r"lex::core::Lexer(::<.*>)?::consume_char$")])]
+    cx.require(consumes, 'arithmetic_expansion no longer consumes the closing parentheses with consume_char (anchor moved)')
+    first = min(consumes, key=lambda x: body.blocks[x[0]]['t'].get('line', 0))
+    errs = [(blk, j, st) for blk, j, st in Q.find_aggregates(body, re.compile(r'SyntaxError$'), 'UnclosedArith')]
+    cx.require(errs, 'arithmetic_expansion no longer reports UnclosedArith')
+    subst = {blk for blk, t in Q.find_calls(body, [re.compile(r'::command_substitution$')])}
+    after = body.reachable(first[0])
+    n = 0
+    for blk, j, st in errs:
+        if blk not in after or blk == first[0]:
+            continue
+        n += 1
+        p = body.shortest_path(first[0], {blk}, removed=subst)
+        cx.site('arithmetic_expansion: UnclosedArith at %s after the first `)`: command substitution tried first: %s' % (body.loc(st), p is None))
+        if p is not None:
+            cx.violation(fn, 'unclosed-arith-without-trying-command-substitution', 'after the first `)` of `$((...)` the lexer reports an unclosed '
+                         'arithmetic expansion without trying to read `$( (...) ...)` as a command substitution: `echo $((echo x) )` at the very end '
+                         'of the input (`yash -c`, or any printed command, which has no trailing newline) is a syntax error, the same text followed '
+                         'by a newline is not', loc=body.loc(st), path=Q.render_path(body, p))
+    cx.require(n >= 1, 'no UnclosedArith error after the first `)` found (anchor moved)')
+
+
+def _cond_mentions(F, cond, pred, depth=1):
+    """Does the condition (or a workspace helper it calls, one level) contain a node satisfying pred?"""
+    for y in H.walk(cond):
+        if pred(y):
+            return True
+        if depth and y.get('k') in ('call', 'mcall'):
+            d = y.get('def') or ''
+            if d.startswith('yash_syntax::') and d in F.hir and _cond_mentions(F, F.hir[d]['body'], pred, depth - 1):
+                return True
+    return False
+
+
+def _pat_nodes(n):
+    """All pattern nodes below a HIR node (patterns of letexpr / match arms / let)."""
+    out = []
+
+    def rec_pat(p):
+        if isinstance(p, dict):
+            out.append(p)
+            for v in p.values():
+                rec_pat(v)
+        elif isinstance(p, list):
+            for x in p:
+                rec_pat(x)
+    for y in H.walk(n):
+        if y.get('k') == 'letexpr':
+            rec_pat(y.get('pat'))
+        if y.get('k') == 'match':
+            for a in y.get('arms') or []:
+                rec_pat(a.get('pat'))
+    return out
+
+
+@RS.rule('C06.R3c', 'K-GUARD', 'two more print disambiguations: a function name that ends with an unquoted `$` keeps a blank before `()` (`a$()` '
+         'is a command substitution), and a subshell whose body starts with a subshell keeps a blank between the two `(` (`((` is an '
+         'arithmetic command for the portable-mode parser and other shells)')
+def r3c(cx):
+    F = cx.F
+    # --- function definition
+    dfn = impl_fn(F, SYN + 'FunctionDefinition', DISPLAY, 'fmt')
+    cx.fn(dfn)
+    h = F.hir_of(dfn)
+    ifs = [y for y in H.walk(h['body']) if y.get('k') == 'if']
+
+    def dollar_test(c):
+        return any(p.get('k') == 'pexpr' and isinstance(p.get('e'), dict) and p['e'].get('v') == '$' for p in _pat_nodes({'k': 'block', 'stmts': [], 'e': c})) or \
+            any(y.get('k') == 'lit' and y.get('v') == '$' for y in H.walk(c))
+    guard = [i for i in ifs if _cond_mentions(F, i['c'], lambda y: (y.get('k') == 'lit' and y.get('v') == '$') or
+                                              (y.get('k') == 'letexpr' and dollar_test(y)))
+             and any(emitted(y) == ' ' for y in H.walk(i['t']))]
+    cx.site('Display for FunctionDefinition: blank before `()` when the name ends with `$`: %s' % bool(guard))
+    if not guard:
+        cx.violation(dfn, 'no-blank-after-dollar-name', 'a function whose name ends with an unquoted `$` (`a$ () { :; }`) is printed as '
+                     '`a$() { :; }`: `$()` is an empty command substitution, so the printed text (e.g. the job name, `typeset -fp`) does '
+                     'not define the function when it is read back', loc=loc_of(h))
+    # --- subshell
+    cfn = impl_fn(F, SYN + 'CompoundCommand', DISPLAY, 'fmt')
+    cx.fn(cfn)
+    table, m = H.fn_match_table(F, cfn, SYN + 'CompoundCommand')
+    cx.require('Subshell' in table, 'Display for CompoundCommand has no Subshell arm')
+    arm = table['Subshell'][1]
+    hc = F.hir_of(cfn)
+    sub_ifs = [y for y in H.walk(arm) if y.get('k') == 'if']
+
+    def subshell_test(y):
+        if y.get('k') in ('path',) and str(y.get('def') or '').endswith('CompoundCommand::Subshell'):
+            return True
+        return any(str((p.get('p') or {}).get('def') or p.get('def') or '').endswith('CompoundCommand::Subshell') for p in _pat_nodes({'k': 'block', 'stmts': [], 'e': y}))
+    guard2 = [i for i in sub_ifs if any(emitted(y) == ' ' for y in H.walk(i['t']))
+              and (_cond_mentions(F, i['c'], subshell_test) or
+                   any(_cond_mentions(F, F.hir[c.get('def')]['body'], subshell_test, 0) for c in H.walk(i['c'])
+                       if c.get('k') in ('call', 'mcall') and (c.get('def') or '') in F.hir))]
+    cx.site('Display for CompoundCommand::Subshell: blank between `(` and a body that starts with a subshell: %s' % bool(guard2))
+    if not guard2:
+        cx.violation(cfn, 'nested-subshell-double-paren', 'a subshell whose first command is a subshell, `( (a); b)`, is printed `((a); b)`: the '
+                     'parser in portable mode rejects `((` (arithmetic command), so the printed tree does not parse back', loc=loc_of(hc))
+
+
 RS.rules.sort(key=lambda r: r.id)
 
 
 # --- explanation addendum (generated catalogue in DESIGN.md reads RS.explanation)
 RS.explanation += ' Added later: the raw text of a command substitution is printed verbatim (R2b).'
 RS.explanation += ' (R5) first_word_is_keyword is evaluated path by path under the hypothesis that the keyword-table lookup returned Ok(unknown keyword): every path must return the constant true, so no further condition narrows the set of reserved words that are printed redirections-first; (R3b) also accepts `false` where the lookup result is known to be Err.'
+RS.explanation += ' (R6) after an unquoted backslash the escaped character is read with line continuation disabled, in every unit lexer.'
+RS.explanation += ' (R7) every Parser-driving FromStr rejects trailing text; (R8) `$((..) ` at end of input falls back to a command substitution.'
+RS.explanation += ' (R3c) blanks that keep `a$ ()` and `( (` apart are printed.'
